@@ -516,6 +516,8 @@ def load_known():
 
 
 def write_evidence(pid, tier, level, coverage, wall, violations, assumptions):
+    if os.environ.get("VERIF_NO_EVIDENCE"):
+        return
     os.makedirs(EVID, exist_ok=True)
     ev = {"property_id": pid, "tier": tier, "seed": SEED, "level": level, "coverage": coverage,
           "assumptions": assumptions, "wall_s": round(wall, 2), "violations": violations}
@@ -526,6 +528,9 @@ def write_evidence(pid, tier, level, coverage, wall, violations, assumptions):
 
 
 def write_replay(pid, payload):
+    global REPLAYS
+    if os.environ.get("VERIF_REPLAY_DIR"):
+        REPLAYS = os.environ["VERIF_REPLAY_DIR"]
     os.makedirs(REPLAYS, exist_ok=True)
     blob = json.dumps(payload, sort_keys=True, default=str)
     name = "%s-%s.json" % (pid, hashlib.sha1(blob.encode()).hexdigest()[:12])  # nosec
